@@ -11,6 +11,7 @@ mod datastress;
 mod deletestress;
 mod fcsched;
 mod grpcstress;
+mod mailstress;
 mod nsstress;
 mod orderstress;
 mod puresweep;
@@ -32,6 +33,7 @@ fn main() {
         Some("racestress") => racestress::main_racestress(&args[1..]),
         Some("orderstress") => orderstress::main_orderstress(&args[1..]),
         Some("pushstress") => pushstress::main_pushstress(&args[1..]),
+        Some("mailstress") => mailstress::main_mailstress(&args[1..]),
         Some("nsstress") => nsstress::main_nsstress(&args[1..]),
         Some("datastress") => datastress::main_datastress(&args[1..]),
         Some("grpcstress") => grpcstress::main_grpcstress(&args[1..]),
